@@ -689,6 +689,91 @@ func run(args []string) error {
 		}
 	}
 
+	// ---- every exported derivation entry point of bip32 / bip44 over BOTH index classes (normal and hardened):
+	//      private->private, private->public (N o CKDpriv, hardened allowed), public->public (hardened must fail),
+	//      DeriveSubpath, path based, and the fingerprint / identifier accessors through the serialisation
+	{
+		rounds := 10 + n/6
+		for j := 0; j < rounds; j++ {
+			k := g.xprv()
+			base := g.index() & 0x7fffffff
+			for _, idx := range []uint32{base, base | 0x80000000, 0, 0x80000000, 0x7fffffff, 0xffffffff}[:2+2*(j%3)] {
+				ser := hx(k.Serialize())
+				ix := fmt.Sprintf("%x", idx)
+				res := func(s []byte, err error, pan bool) string {
+					if pan {
+						return "panic"
+					}
+					if err != nil {
+						return err32(err)
+					}
+					return hx(s)
+				}
+				{
+					var c *bip32.PrivateKey
+					var err error
+					pan := Guard(func() { c, err = k.NewPrivateChildKey(idx) })
+					var b []byte
+					if c != nil && err == nil {
+						b = c.Serialize()
+					}
+					emit("entry", "ckdpriv", []string{ser, ix}, res(b, err, pan), map[string]interface{}{"entry": "PrivateKey.NewPrivateChildKey", "index": idx})
+				}
+				{
+					var c *bip32.PublicKey
+					var err error
+					pan := Guard(func() { c, err = k.NewPublicChildKey(idx) })
+					var b []byte
+					if c != nil && err == nil {
+						b = c.Serialize()
+					}
+					emit("entry", "ckdprivpub", []string{ser, ix}, res(b, err, pan), map[string]interface{}{"entry": "PrivateKey.NewPublicChildKey", "index": idx})
+					hist.Add(fmt.Sprintf("entry:PrivateKey.NewPublicChildKey:hardened=%v", idx >= 0x80000000))
+				}
+				{
+					pub := k.PublicKey()
+					var c *bip32.PublicKey
+					var err error
+					pan := Guard(func() { c, err = pub.NewPublicChildKey(idx) })
+					var b []byte
+					if c != nil && err == nil {
+						b = c.Serialize()
+					}
+					emit("entry", "ckdpub", []string{hx(pub.Serialize()), ix}, res(b, err, pan), map[string]interface{}{"entry": "PublicKey.NewPublicChildKey", "index": idx})
+				}
+				{ // DeriveSubpath with one and two nodes = iterated CKDpriv
+					idx2 := g.index()
+					var c *bip32.PrivateKey
+					var err error
+					pan := Guard(func() { c, err = k.DeriveSubpath([]bip32.PathNode{{ChildNumber: idx}, {ChildNumber: idx2}}) })
+					obs := ""
+					if pan {
+						obs = "panic"
+					} else if err != nil {
+						obs = err32(err)
+					} else {
+						obs = hx(c.Serialize())
+					}
+					// model: two ckdpriv steps; the first step's result is taken from the implementation's own single step
+					if c1, e1 := k.NewPrivateChildKey(idx); e1 == nil {
+						emit("entry", "ckdpriv", []string{hx(c1.Serialize()), fmt.Sprintf("%x", idx2)}, obs, map[string]interface{}{"entry": "PrivateKey.DeriveSubpath (second node)", "index": idx2})
+					}
+				}
+			}
+			// path-based entry point with hardened and normal nodes mixed
+			seed := g.r.Bytes(16 + g.r.Intn(49))
+			p := fmt.Sprintf("m/%d'/%d/%d'/%d", base, base, g.index()&0x7fffffff, g.index()&0x7fffffff)
+			kk, err := bip32.NewPrivateKeyFromPath(seed, p)
+			obs := ""
+			if err != nil {
+				obs = err32(err)
+			} else {
+				obs = hx(kk.Serialize())
+			}
+			emit("entry", "frompath", []string{hx(seed), hs(p)}, obs, map[string]interface{}{"entry": "NewPrivateKeyFromPath", "path": p})
+		}
+	}
+
 	// ---- history: consecutive calls with RELATED inputs, and each call repeated after a different one.  The model is
 	//      pure, so every call is compared with the model's answer for that call alone (caches / memo tables keyed
 	//      on an ambiguous encoding of the arguments show up as a wrong answer for the second call).
